@@ -31,10 +31,10 @@ U2 = [
     (1, 3, 2, 2, 1),
     (1, 3, 3, 1),
     (1, 3, 3, 2),
-    (1, 5, 7, 1),
+    (1, 3, 10, 1),
     (1, 5, 8),
 ]
-R2 = [(1, 3, 1), (1, 3, 2), (1, 3, 3), (1, 3, 8), (1, 5, 7), (1, 9)]
+R2 = [(1, 3, 1), (1, 3, 2), (1, 3, 3), (1, 3, 8), (1, 3, 10), (1, 9)]
 
 UNIVERSES = {"U": (scopes.U, scopes.ROOTS), "U2": (U2, R2)}
 
